@@ -109,7 +109,11 @@ def lganm_spec(g, p, seeds, force_explicit=False, force_ranges=False, dtype="<f8
 
 
 def nd_spec(g, p):
-    return {"mean": enc(rand_vec(g, p, -2, 2)), "cov": enc(rand_cov(g, p, singular=g.random() < 0.2))}
+    cov = rand_cov(g, p, singular=g.random() < 0.2)
+    if p >= 2 and g.random() < 0.06:
+        cov = cov.copy()                      # symmetric but not positive semi-definite (numpy warns, and samples)
+        cov[0, 1] = cov[1, 0] = 2.0 * max(cov[0, 0], cov[1, 1]) + 1.0
+    return {"mean": enc(rand_vec(g, p, -2, 2)), "cov": enc(cov)}
 
 
 def anm_spec(g, p, allow_param=False):
